@@ -305,6 +305,8 @@ pub fn run(ctx: &mut Ctx) {
     let span: i64 = if ctx.thorough() { 120_000 } else { 2_400 };
     let mut ymv: Vec<TV> = (-span..=span).map(|m| TV { ty: Ty::IntervalYM, raw: m }).collect();
     ymv.extend(pool_ym(seed).into_iter().map(|m| TV { ty: Ty::IntervalYM, raw: m as i64 }));
+    let widths = crate::c04::interval_width_values();
+    ymv.extend(widths.iter().filter(|t| t.ty == Ty::IntervalYM).copied());
     let (ymp, ymvr) = (&ympics, &ymv);
     let r = ctx.sweep_each("interval_ym_pictures_x_values", "every year-month picture x all intervals within the month bound + boundary pool", ympics.len() as u64, 1, |idx, acc| {
         let p = &ymp[idx as usize];
@@ -319,6 +321,7 @@ pub fn run(ctx: &mut Ctx) {
     for s in (-172_800i64..=172_800).step_by(if ctx.thorough() { 7 } else { 61 }) {
         dtv.push(TV { ty: Ty::IntervalDT, raw: s * US_SEC + if s % 2 == 0 { 0 } else { 654_321 * s.signum() } });
     }
+    dtv.extend(widths.iter().filter(|t| t.ty == Ty::IntervalDT).copied());
     let (dtp, dtvr) = (&dtpics, &dtv);
     let r = ctx.sweep_each("interval_dt_pictures_x_values", "every day-time picture x boundary pool + strided seconds within +/-2 days", dtpics.len() as u64, 1, |idx, acc| {
         let p = &dtp[idx as usize];
